@@ -2,7 +2,7 @@
 (* Trace validation for PartsOrder.  A segment is one package the harness     *)
 (* built (any number of parts, any combination of layout options) and opened  *)
 (* with the real code:                                                        *)
-(*   Pkg(fmt, base, parts)   the abstract package; the spec checks that it is *)
+(*   Pkg(fmt, base, roots, parts)  the abstract package (roots: the rootfile chain); the spec checks that it is *)
 (*                           well formed (so a harness mistake is not taken   *)
 (*                           for a defect) and restarts its reader            *)
 (*   Begin(api)              an API of the real code is about to be read out  *)
@@ -20,13 +20,13 @@ VARIABLE l
 tvars == <<vars, l>>
 Ev == Trace[l]
 
-NoPkg == [fmt |-> "none", base |-> <<>>, parts |-> <<>>]
+NoPkg == [fmt |-> "none", base |-> <<>>, roots |-> <<>>, parts |-> <<>>]
 
 TraceInit == pkg = NoPkg /\ pages = <<>> /\ pos = 0 /\ l = 1
 
 TracePkg ==
     /\ l <= Len(Trace) /\ Ev.event = "Pkg" /\ l' = l + 1
-    /\ pkg' = [fmt |-> Ev.fmt, base |-> Ev.base, parts |-> Ev.parts]
+    /\ pkg' = [fmt |-> Ev.fmt, base |-> Ev.base, roots |-> Ev.roots, parts |-> Ev.parts]
     /\ WellFormed(pkg')
     /\ pages' = <<>> /\ pos' = 0
 
